@@ -393,6 +393,24 @@ def run(chk: Check) -> int:
         if rec.steps:
             add(cfg, rec, orc, f"seed{chk.seed}/div{k}", "long")
 
+    # integrands whose value is exactly -inf (and mixed +inf / -inf / nan) at abscissae the rules sample:
+    # end-point singularities log|x-lo|, -1/sqrt|x-lo| on [lo, hi], -inf at the first midpoint, at isolated nodes
+    for k in range(8 if chk.quick else 40):
+        rng = chk.rng("neginf", k)
+        fam = ["log_sing", "neg_inv_sqrt", "mixed_nonfinite", "neginf_nodes"][k % 4]
+        cfg = I.draw_config(rng, fam)
+        cfg["max_ivals"] = 1000
+        lo, hi = cfg["bounds"]
+        cfg["params"][0] = float(lo) if k % 8 < 4 else (lo + hi) / 2
+        mode = I.MODES[(k // 4) % len(I.MODES)]
+        try:
+            rec, orc = drive(cfg, rng=rng, mode=mode, max_tells=max_tells, max_ops=max_ops, foreign_rate=0)
+        except I.InstrumentationError as e:
+            chk.broke("correspondence", "run-time instrumentation of IntegratorLearner no longer fits the code", str(e))
+            continue
+        if rec.steps:
+            add(cfg, rec, orc, f"seed{chk.seed}/neginf{k}", mode)
+
     repaired = not f1_seen
     chk.log(f"real code corresponds to the model with repaired={repaired} (F1 paths reproduced: {sorted(f1_seen) or 'none'})")
     for sig, (cfg, ops, msg) in first_fail.items():
@@ -429,8 +447,8 @@ def run(chk: Check) -> int:
             f"oracle failures {len(chk.failures)}; totals {tot}")
     return chk.finish(
         rule="histories generated by driving the real IntegratorLearner like a parallel runner (modes runner/batch/deep/holdback, "
-             "ask sizes 1..50, 1..16 tasks, permuted/partial/delayed delivery, occasional foreign tells) on 14 integrand families "
-             "(smooth, peaked, step, kink, sqrt/inverse-sqrt singular, non-finite at isolated nodes, isolated deviations, divergent), "
+             "ask sizes 1..50, 1..16 tasks, permuted/partial/delayed delivery, occasional foreign tells) on 18 integrand families "
+             "(smooth, peaked, step, kink, sqrt/inverse-sqrt singular, non-finite (nan, +inf, -inf) at isolated nodes and at sampled end points / midpoints, isolated deviations, divergent), "
              "tol 1e-10..1e-3, 8 bounds, max_ivals 3..1000; non-trivial = at least one tell that completed two or more "
              "(interval, depth) rules at once and at least one split; distinct by (integrand, bounds, op list)",
         assumptions=["hand-written model Model/Integrator.v tied to the code by the sampled correspondence only",
